@@ -124,6 +124,9 @@ func firstDiff(a, b string) string {
 	return fmt.Sprintf("…%s | …%s", shorten(a[lo:]), shorten(b[lo:]))
 }
 
+// the free-running fan-out / traversal take microseconds; the watchdog tells a loaded machine from "never"
+const freeRunWatchdog = 25 * time.Second
+
 func main() {
 	var job raceJob
 	if err := json.NewDecoder(os.Stdin).Decode(&job); err != nil {
@@ -228,18 +231,37 @@ func main() {
 					p.Services[name] = types.ServiceConfig{Name: name, Image: "orig-" + name}
 				}
 				rng := rand.New(rand.NewSource(job.Seed + int64(k)))
-				q, err := p.WithServicesTransform(func(name string, s types.ServiceConfig) (types.ServiceConfig, error) {
-					if rng2 := int(name[1]-'0') + k; rng2%3 == 0 {
-						runtime.Gosched()
-					}
-					var v int
-					fmt.Sscanf(name, "s%d", &v)
-					if v < job.TransformE {
-						return s, fmt.Errorf("fail %s", name)
-					}
-					s.Image = "new-" + name
-					return s, nil
-				})
+				type tr struct {
+					q   *types.Project
+					err error
+				}
+				trCh := make(chan tr, 1)
+				go func() {
+					q, err := p.WithServicesTransform(func(name string, s types.ServiceConfig) (types.ServiceConfig, error) {
+						if rng2 := int(name[1]-'0') + k; rng2%3 == 0 {
+							runtime.Gosched()
+						}
+						var v int
+						fmt.Sscanf(name, "s%d", &v)
+						if v < job.TransformE {
+							return s, fmt.Errorf("fail %s", name)
+						}
+						s.Image = "new-" + name
+						return s, nil
+					})
+					trCh <- tr{q, err}
+				}()
+				var q *types.Project
+				var err error
+				select {
+				case r := <-trCh:
+					q, err = r.q, r.err
+				case <-time.After(freeRunWatchdog):
+					mu.Lock()
+					out.TransformWrong = append(out.TransformWrong, fmt.Sprintf("deadlock: WithServicesTransform on %d services (%d failing) did not return", n, job.TransformE))
+					mu.Unlock()
+					return
+				}
 				_ = rng
 				mu.Lock()
 				defer mu.Unlock()
@@ -289,23 +311,36 @@ func main() {
 				done := map[string]bool{}
 				visits := map[string]int{}
 				bad := ""
-				err := graph.InDependencyOrder(context.Background(), p, func(_ context.Context, name string, _ types.ServiceConfig) error {
-					vmu.Lock()
-					visits[name]++
-					for _, d := range deps[name] {
-						if !done[d] {
-							bad = name + " visited before its dependency " + d
+				limit := 1 + k*2 // 1 and 3
+				errCh := make(chan error, 1)
+				go func() {
+					errCh <- graph.InDependencyOrder(context.Background(), p, func(_ context.Context, name string, _ types.ServiceConfig) error {
+						vmu.Lock()
+						visits[name]++
+						for _, d := range deps[name] {
+							if !done[d] {
+								bad = name + " visited before its dependency " + d
+							}
 						}
-					}
-					vmu.Unlock()
-					if rng2 := len(name) + k; rng2%2 == 0 {
-						runtime.Gosched()
-					}
-					vmu.Lock()
-					done[name] = true
-					vmu.Unlock()
-					return nil
-				}, graph.WithMaxConcurrency(1+k*3))
+						vmu.Unlock()
+						if rng2 := len(name) + k; rng2%2 == 0 {
+							runtime.Gosched()
+						}
+						vmu.Lock()
+						done[name] = true
+						vmu.Unlock()
+						return nil
+					}, graph.WithMaxConcurrency(limit))
+				}()
+				var err error
+				select {
+				case err = <-errCh:
+				case <-time.After(freeRunWatchdog):
+					mu.Lock()
+					out.TransformWrong = append(out.TransformWrong, fmt.Sprintf("traversal: deadlock: the walk of %d services under WithMaxConcurrency(%d) did not return", n, limit))
+					mu.Unlock()
+					return
+				}
 				mu.Lock()
 				defer mu.Unlock()
 				if err != nil {
